@@ -13,7 +13,7 @@ from vfw.exactlp import LP, frac
 # "pickled" (pickle round trip), "optimized_first" (one optimize() before it is handed over, so that the solver holds a
 # basis), "context_churn" (a `with model:` block with knock-outs, another objective and an optimisation that is left)
 BUILD_PATHS = ["bulk", "one_by_one", "mets_first", "mets_implicit_ids", "switch_after", "switch_twice",
-               "copied", "pickled", "optimized_first", "context_churn", "stoich_late"]
+               "copied", "pickled", "optimized_first", "context_churn", "stoich_late", "direction_first"]
 _OTHER = {"glpk": "glpk_exact", "glpk_exact": "glpk"}
 # additional paths for checks that do not audit the solver content row by row: "free_row_early" puts an unbounded row over
 # a variable fixed at zero into the problem after the first metabolite (the mass balances are then not the leading rows of
@@ -125,9 +125,13 @@ def build_model(spec, path: str = "bulk", set_solver: bool = True):
             gene.name = g.get("name", "")
             gene.notes = _copy.deepcopy(g.get("notes", {}))
             gene.annotation = _copy.deepcopy(g.get("annotation", {}))
+    if path in ("direction_first", "stoich_late"):
+        # the direction is chosen before the objective is assigned (the objective setter has to keep it; since C04-9)
+        model.objective_direction = spec.get("direction", "max")
     if spec.get("objective") is not None:
         model.objective = {model.reactions.get_by_id(rid): c for rid, c in spec["objective"].items()}
-    model.objective_direction = spec.get("direction", "max")
+    if path not in ("direction_first", "stoich_late"):
+        model.objective_direction = spec.get("direction", "max")
     grps = []
     for g in spec.get("groups", []):
         members = []
